@@ -269,6 +269,12 @@ def ldp(G, h):
     G = np.asarray(G, float)
     h = np.asarray(h, float)
     k, n = G.shape
+    # the problem is positively homogeneous in h: solve it for h / max|h| (the feasibility test below is absolute; without this
+    # normalisation right-hand sides of order 1e5 or more were declared infeasible — found when C19 was given values around 1e6)
+    hs = float(np.abs(h).max())
+    if hs > 0 and hs != 1.0:
+        z, lb = ldp(G, h / hs)
+        return (None, np.inf) if z is None else (z * hs, lb * hs)
     E = np.vstack([G.T, h.reshape(1, -1)])
     f = np.zeros(n + 1)
     f[-1] = 1.0
